@@ -1,13 +1,16 @@
 """C33 experimental features are gated and the gate state is restored.
 
-R-C33.1  every check_*_enabled function tests the live module global
-         EXPERIMENTAL_FEATURES_ENABLED and must-raise a GuppyError when it is false
-         (and only then).
+R-C33.1  every check_*_enabled function is interpreted with the live module global EXPERIMENTAL_FEATURES_ENABLED False and
+         True (helpers followed): it raises a GuppyError iff the flag is False; no parameter default captures the flag;
+         no module imports the flag by value.  (Truth-table form of the gate body only as fallback.)
 R-C33.2  every gated construct passes its gate: constructor sites of ModifiedBlock /
          DesugaredListComp / TensorCall, the list-display visitors, the `list` type
          constructor, and capturing closures are dominated by the matching gate call.
-R-C33.3  both context-manager classes save the previous value before overwriting it,
-         __exit__ restores it unconditionally and does not swallow exceptions.
+R-C33.3  the two switch classes are interpreted (base classes and helpers followed, the flag as shared module state) on every
+         scenario  initial {F,T} x outer {enable, disable} x inside {nothing, nested with, plain call of either switch} x each
+         block left {normally, by exception}: construction sets the switch's value, __enter__ leaves it, the inner exit restores
+         the outer value, the outer exit restores the initial one, __exit__ returns false.  Who-may-write: only methods of the
+         switch classes and helpers called from nowhere else.  (Statement-order form only as fallback.)
 """
 
 from __future__ import annotations
@@ -21,9 +24,10 @@ from ..report import Ctx
 
 LEVEL = "other"
 EXPLANATION = (
-    "Sibling rule over the four gate functions (flag read at call time, must-raise GuppyError iff disabled), a "
-    "who-must-call rule with dominance on the per-function CFG for every construction site of a gated construct, and "
-    "a save/overwrite/restore ordering rule for the two context-manager classes. The diagnostic class is not mandated "
+    "The four gate functions and the two switch classes are interpreted from their syntax trees with the flag as shared "
+    "module state (gates: raise GuppyError iff disabled; switches: 72 nesting/exit scenarios restore the previous value), a "
+    "who-must-call rule with dominance on the per-function CFG for every construction site of a gated construct, and a "
+    "who-may-write rule for the flag. The diagnostic class is not mandated "
     "(tests/error/experimental_errors/capturing_closure.err pins UnsupportedError for closures)."
 )
 
@@ -49,7 +53,20 @@ def run(ctx: Ctx) -> None:
     atom = booltab.suffix_atomizer({FLAG: "enabled"})
     gates = [f for f in idx.iter_funcs((EXP,)) if f.cls is None and f.name.startswith("check_") and f.name.endswith("_enabled")]
     ctx.floor("R-C33.1", "gate functions", len(gates), 4)
-    for f in gates:
+    from . import c33_semantic
+    # a default value is evaluated once, when the gate is defined: `def gate(loc, _on=FLAG)` tests a stale copy (any function of the module)
+    frozen_any = False
+    for f in idx.iter_funcs((EXP,)):
+        all_args = f.node.args.posonlyargs + f.node.args.args
+        defaults = list(zip(all_args[len(all_args) - len(f.node.args.defaults):], f.node.args.defaults)) + \
+            [(a, d) for a, d in zip(f.node.args.kwonlyargs, f.node.args.kw_defaults) if d is not None]
+        frozen = [a.arg for a, d in defaults if any(isinstance(x, ast.Name) and x.id == FLAG for x in ast.walk(d))]
+        if frozen:
+            frozen_any = True
+            ctx.violation("R-C33.1", f"{f.qualname}#raises-iff-disabled", f.where, {"parameters_defaulting_to_the_flag": frozen},
+                          f"`{f.name}` captures the flag's value at import time (default argument): enabling or disabling experimental features later has no effect on it")
+    gates_decided = (not frozen_any) and c33_semantic.gates(ctx, gates)
+    for f in ([] if gates_decided or frozen_any else gates):
         ctx.saw("functions", f.qualname)
         key = f"{f.qualname}#raises-iff-disabled"
         # the flag must be the module global read at call time: not a parameter/default, not rebound locally
@@ -177,7 +194,8 @@ def run(ctx: Ctx) -> None:
     classes = [c for c in idx.classes.values() if c.module.name == EXP and c.name.endswith("_experimental_features")]
     ctx.floor("R-C33.3", "context manager classes", len(classes), 2)
     written = {}
-    for c in classes:
+    proto_decided = c33_semantic.protocol(ctx)
+    for c in ([] if proto_decided else classes):
         ctx.saw("classes", c.qualname)
         init, ex, en = c.methods.get("__init__"), c.methods.get("__exit__"), c.methods.get("__enter__")
         if init is None or ex is None or en is None:
@@ -236,19 +254,13 @@ def run(ctx: Ctx) -> None:
         ctx.check(not touches, "R-C33.3", f"{c.qualname}.__enter__#no-second-write", en.where, {"writes": len(touches)},
                   "__enter__ rewrites the flag after __init__ saved it: nested use restores the wrong value")
     want = {"enable_experimental_features": True, "disable_experimental_features": False}
-    ctx.check(all(written.get(k) is v for k, v in want.items()), "R-C33.3", f"{EXP}#enable-writes-True-disable-writes-False", mod.rel,
-              {"written": written}, "enable/disable write the wrong constant")
-    # who may write the flag: only these classes
-    writers = set()
-    for f in idx.iter_funcs(("guppylang_internals", "guppylang")):
-        for n in walk_no_nested(f.node):
-            if isinstance(n, ast.Name) and n.id == FLAG and isinstance(n.ctx, ast.Store):
-                writers.add(f.qualname)
-            if isinstance(n, ast.Attribute) and n.attr == FLAG and isinstance(n.ctx, ast.Store):
-                writers.add(f.qualname)
-    allowed = {f"{c.qualname}.{m}" for c in classes for m in ("__init__", "__exit__")}
+    if not proto_decided:
+        ctx.check(all(written.get(k) is v for k, v in want.items()), "R-C33.3", f"{EXP}#enable-writes-True-disable-writes-False", mod.rel,
+                  {"written": written}, "enable/disable write the wrong constant")
+    # who may write the flag: the switch classes (with their base classes) and private helpers only they call
+    writers, allowed = c33_semantic.flag_writers(idx)
     ctx.check(writers <= allowed, "R-C33.3", "who-may-write#EXPERIMENTAL_FEATURES_ENABLED", mod.rel,
-              {"writers": sorted(writers), "allowed": sorted(allowed)},
+              {"writers": sorted(writers), "not_part_of_the_switch_protocol": sorted(writers - allowed)},
               "the gate flag is written outside the enable/disable context managers (no restore pairing)")
     # readers: a module that does `from experimental import EXPERIMENTAL_FEATURES_ENABLED` binds a stale copy
     stale = [m.name for m in idx.modules.values() if m.name != EXP and m.imports.get(FLAG, "").endswith(FLAG)]
